@@ -53,6 +53,50 @@ func runC06(c *core.Ctx) {
 			journals[fn] = append(journals[fn], in)
 		}
 	}
+	// journalising helpers: an unexported function of the package that calls journalize itself (e.g. the
+	// extracted tail "build the entry, journalize it"); a call of it is a journal event of its caller
+	journalHelper := map[*ssa.Function]bool{}
+	for fn, j := range journals {
+		if len(j) > 0 && fn.Parent() == nil && !ssaExported(fn) {
+			journalHelper[fn] = true
+		}
+	}
+	for _, fn := range fns {
+		for _, in := range core.CallsIn(fn, func(in ssa.Instruction, cc *ssa.CallCommon) bool {
+			g := cc.StaticCallee()
+			return g != nil && journalHelper[g] && g != fn
+		}) {
+			journals[fn] = append(journals[fn], in)
+		}
+	}
+	// callers inside the package, for the inheritance of exemptions by extracted helpers
+	callersOf := map[*ssa.Function][]*ssa.Function{}
+	for _, fn := range fns {
+		core.Instrs(fn, func(in ssa.Instruction) {
+			if cc := core.CallOf(in); cc != nil && cc.StaticCallee() != nil {
+				callersOf[cc.StaticCallee()] = append(callersOf[cc.StaticCallee()], fn)
+			}
+		})
+	}
+	var exemptFn func(fn *ssa.Function, d int) (string, bool)
+	exemptFn = func(fn *ssa.Function, d int) (string, bool) {
+		n := fname(fn)
+		if why, ok := c06Exempt[n]; ok {
+			return why, true
+		}
+		if strings.HasSuffix(n, ".Revert") && strings.HasPrefix(n, "journalEntry") {
+			return "the Revert method of a journal entry is the undo itself", true
+		}
+		if d > 2 || fn.Parent() != nil || ssaExported(fn) || len(callersOf[fn]) == 0 {
+			return "", false
+		}
+		for _, cl := range callersOf[fn] {
+			if _, ok := exemptFn(cl, d+1); !ok {
+				return "", false
+			}
+		}
+		return "unexported helper called only from exempt functions (" + fname(callersOf[fn][0]) + ")", true
+	}
 	// reviewed non-journalling helpers (frozen): their call sites are the mutation events of their
 	// callers, with the kind of journal entry that undoes them
 	helperKind := map[string]string{
@@ -113,12 +157,8 @@ func runC06(c *core.Ctx) {
 	for _, n := range names {
 		fn := byName[n]
 		c.Analysed(core.QualName(fn))
-		if why, ok := c06Exempt[n]; ok {
+		if why, ok := exemptFn(fn, 0); ok {
 			c.Pass("C06/mutation-journalised", n, fn.Pos(), "exempt: "+why)
-			continue
-		}
-		if strings.HasSuffix(n, ".Revert") && strings.HasPrefix(n, "journalEntry") {
-			c.Pass("C06/mutation-journalised", n, fn.Pos(), "exempt: the Revert method of a journal entry is the undo itself")
 			continue
 		}
 		if wrapper[fn] {
@@ -137,7 +177,30 @@ func runC06(c *core.Ctx) {
 			name := fmt.Sprintf("%s/%s-mutation#%d(%s)", n, kindOf(fn, ev), i, core.CallDesc(core.CallOf(ev)).Name)
 			isJ := func(in ssa.Instruction) bool {
 				cc := core.CallOf(in)
-				if cc == nil || !core.CallDesc(cc).Is(pkg, "AccountsDB", "journalize") {
+				if cc == nil {
+					return false
+				}
+				if g := cc.StaticCallee(); g != nil && journalHelper[g] && g != fn {
+					// a journalising helper: the entry it journalizes is built from a constructor of the right kind
+					found := false
+					core.Instrs(g, func(in2 ssa.Instruction) {
+						c2 := core.CallOf(in2)
+						if c2 == nil || !core.CallDesc(c2).Is(pkg, "AccountsDB", "journalize") {
+							return
+						}
+						for v := range core.BackwardReach(c2.Args[len(c2.Args)-1]) {
+							if call, ok := v.(*ssa.Call); ok {
+								for _, want := range ctorsOf[kindOf(fn, ev)] {
+									if core.CallDesc(&call.Call).Name == want {
+										found = true
+									}
+								}
+							}
+						}
+					})
+					return found
+				}
+				if !core.CallDesc(cc).Is(pkg, "AccountsDB", "journalize") {
 					return false
 				}
 				// the entry derives from a NewJournalEntry* constructor of the kind that undoes this mutation
@@ -291,23 +354,36 @@ func c06LastRootAndOrder(c *core.Ctx) {
 	}
 	c.Floor("C06/last-root-set-only-after-success", 2)
 	if fn := anchorM(c, pkg, "AccountsDB", "RevertToSnapshot"); fn != nil {
+		isRevert := func(in ssa.Instruction, cc *ssa.CallCommon) bool { return cc.IsInvoke() && cc.Method.Name() == "Revert" }
+		// the undo step: in the loop of RevertToSnapshot itself, or in a helper the loop calls
+		host := fn
 		var rev ssa.Instruction
-		for _, in := range core.CallsIn(fn, func(in ssa.Instruction, cc *ssa.CallCommon) bool {
-			return cc.IsInvoke() && cc.Method.Name() == "Revert"
-		}) {
+		for _, in := range core.CallsIn(fn, isRevert) {
 			rev = in
 		}
 		loop := (*core.Loop)(nil)
 		if rev != nil {
 			loop = core.InnermostLoop(fn, rev.Block())
+		} else {
+			core.Instrs(fn, func(in ssa.Instruction) {
+				cc := core.CallOf(in)
+				if cc == nil || cc.StaticCallee() == nil || core.InnermostLoop(fn, in.Block()) == nil {
+					return
+				}
+				for _, in2 := range core.CallsIn(cc.StaticCallee(), isRevert) {
+					host, rev = cc.StaticCallee(), in2
+				}
+			})
 		}
-		if rev == nil || loop == nil {
+		if rev == nil || (host == fn && loop == nil) {
 			c.Undecided("C06/reverted-account-written-back-in-order", "AccountsDB.RevertToSnapshot", fn.Pos(), "no loop undoing journal entries")
 			return
 		}
+		c.Analysed(fname(host))
+		inScope := func(b *ssa.BasicBlock) bool { return loop == nil || loop.Body[b] }
 		saves := func(in ssa.Instruction) bool {
 			cc := core.CallOf(in)
-			return cc != nil && cc.StaticCallee() != nil && cc.StaticCallee().Name() == "saveAccountToTrie" && loop.Body[in.Block()]
+			return cc != nil && cc.StaticCallee() != nil && cc.StaticCallee().Name() == "saveAccountToTrie" && inScope(in.Block())
 		}
 		nilAccount := func(b *ssa.BasicBlock, si int) bool {
 			ifi, ok := b.Instrs[len(b.Instrs)-1].(*ssa.If)
@@ -321,13 +397,21 @@ func c06LastRootAndOrder(c *core.Ctx) {
 			call, isCall := cond.(*ssa.Call)
 			return isCall && call.Call.StaticCallee() != nil && call.Call.StaticCallee().Name() == "IfNil" && si == on
 		}
-		esc, path := core.PathQ{Fn: fn, From: rev, Via: saves, ViaEdge: nilAccount,
+		// the tail call `return adb.saveAccountToTrie(account)` is a save
+		tailSave := func(r *ssa.Return) bool {
+			if len(r.Results) == 0 {
+				return false
+			}
+			call, ok := r.Results[len(r.Results)-1].(*ssa.Call)
+			return ok && call.Call.StaticCallee() != nil && call.Call.StaticCallee().Name() == "saveAccountToTrie"
+		}
+		esc, path := core.PathQ{Fn: host, From: rev, Via: saves, ViaEdge: nilAccount,
 			Target: func(x ssa.Instruction, pred *ssa.BasicBlock) bool {
-				if x == loop.Header.Instrs[0] {
+				if loop != nil && x == loop.Header.Instrs[0] {
 					return true
 				}
 				r, isRet := x.(*ssa.Return)
-				return isRet && !loop.Body[x.Block()] && core.SuccessReturn(r, pred)
+				return isRet && (loop == nil || !loop.Body[x.Block()]) && core.SuccessReturn(r, pred) && !tailSave(r)
 			}}.Escape()
 		c.Check(esc == nil, "C06/reverted-account-written-back-in-order", "AccountsDB.RevertToSnapshot", rev.Pos(),
 			"the account returned by an undone entry is saved to the trie before the next (older) entry is undone",
